@@ -694,6 +694,9 @@ func (ep *episode) run(c *lib.Ctx, base string) {
 			repo.RemovePlzOut()
 			for _, t := range ep.Cases {
 				t.steps = append(t.steps, "SRmOut")
+				if t.Kind == "genrule" && t.Shape != "outdir" && t.lastOK && len(t.eff()) > 0 && t.Poison != "match" {
+					t.Poison = lib.Pick(t.rng, []string{"replace", "replace", "inplace", "none"})
+				}
 				if t.Kind == "genrule" && t.Shape != "outdir" && t.lastOK && t.Poison != "none" && len(t.eff()) > 0 {
 					its, done := poisonCache(repo, t, t.Poison == "inplace")
 					if !done {
@@ -789,6 +792,23 @@ func tailStr(s string, n int) string {
 func (ep *episode) applyEdit(c *lib.Ctx, t *tcase) {
 	items := t.produce()
 	r := t.rng
+	// choose among the edits that apply to the state the target is in
+	opts := []string{"none", "wrong", "fix"}
+	if len(t.eff()) > 0 {
+		opts = append(opts, "drop")
+		if t.Kind == "genrule" && t.lastOK && len(t.Declared[0]) >= 2 && len(t.eff()) == len(t.Declared) {
+			opts = append(opts, "resplit", "resplit")
+		}
+	} else {
+		opts = append(opts, "add-wrong", "add-wrong")
+	}
+	if len(t.Declared) >= 2 {
+		opts = append(opts, "reorder")
+	}
+	if len(t.Srcs) > 0 {
+		opts = append(opts, "src")
+	}
+	t.Edit = lib.Pick(r, opts)
 	switch t.Edit {
 	case "resplit":
 		if len(t.Declared) > 0 && len(t.Declared[0]) >= 2 && t.lastOK && t.Kind == "genrule" && len(t.eff()) == len(t.Declared) {
@@ -1099,7 +1119,7 @@ func main() {
 		base := e2e.Scratch("c35")
 		defer os.RemoveAll(base)
 		corpus(c, base)
-		nrepos := c.Scale(12, 120)
+		nrepos := c.Scale(9, 120)
 		eps := make([]*episode, nrepos)
 		for i := range eps {
 			eps[i] = genEpisode(c.Rng.Fork(), i, 8)
